@@ -2041,6 +2041,23 @@ func internalKeysHiddenGroup(c *Ctx, rule string) {
 					filtered = true
 				}
 			}
+			// or through a boolean helper of the iterator that tests the prefix: one of its two
+			// answers never reaches the emit
+			for _, h := range Calls(pf, false, func(*ssa.CallCommon) bool { return true }) {
+				cal := h.Common().StaticCallee()
+				if cal == nil || cal.Blocks == nil || cal.Pkg != pf.Pkg || h.Value() == nil || !types.Identical(h.Value().Type(), types.Typ[types.Bool]) {
+					continue
+				}
+				onPrefix := false
+				for _, hp := range Calls(cal, false, Named("bytes.HasPrefix")) {
+					if a := hp.Common().Args; len(a) == 2 && isFieldLoad(a[1], "NoKV.DBIterator", "prefix") {
+						onPrefix = true
+					}
+				}
+				if onPrefix && (neverEmits(pf, h.Value(), true, "NoKV.DBIterator") || neverEmits(pf, h.Value(), false, "NoKV.DBIterator")) {
+					filtered = true
+				}
+			}
 			reads := false
 			if ni := c.Fn("", "DB.NewIterator"); ni != nil {
 				AllInstrs(ni, false, func(in ssa.Instruction) {
